@@ -330,7 +330,10 @@ def run_item(item) -> Acc:
         for p in (2, 3, 4):
             cl = GEN[lang][0]("OrderLedger", p, 1, 0, 0, 0, ())
             wraps = {
-                "py": {"in-function": (["def build():"], "    ", ["    return OrderLedger"]), "in-if": (["if FEATURE:"], "    ", [])},
+                "py": {"in-function": (["def build():"], "    ", ["    return OrderLedger"]), "in-if": (["if FEATURE:"], "    ", []),
+                       "in-except-handler": (["try:", "    from fastlib import OrderLedger", "except ImportError:"], "    ", []),
+                       "in-try-body": (["try:"], "    ", ["except ImportError:", "    OrderLedger = None"]),
+                       "in-match-case": (["match FLAVOUR:", "    case \"plain\":"], "        ", [])},
                 "ts": {"in-namespace": (["namespace Billing {"], "  ", ["}"]), "in-function": (["function build() {"], "  ", ["  return OrderLedger;", "}"])},
                 "js": {"in-function": (["function build() {"], "  ", ["  return OrderLedger;", "}"]), "in-block": (["{"], "  ", ["}"])},
                 "rs": {"in-mod": (["mod billing {"], "    ", ["}"]), "in-test-mod": (["#[cfg(test)]", "mod tests {"], "    ", ["}"]), "in-fn": (["fn build() {"], "    ", ["}"])},
